@@ -193,6 +193,7 @@ type actor struct {
 	endClock   int
 	snap       mstate
 	view       mstate
+	mkidx      map[string]bool
 	wrote      map[int]bool // definite document writes
 	touched    map[int]bool // every applied document mutation (definite or not)
 	res        map[string]bool
@@ -201,10 +202,13 @@ type actor struct {
 }
 
 type commitRec struct {
-	clock int
-	actor int
-	docs  map[int]bool
-	res   map[string]bool
+	begin   int // clock at which the writer's snapshot was taken (== clock for the no-transaction actor)
+	clock   int
+	actor   int
+	docs    map[int]bool // definite document writes
+	touched map[int]bool // every applied document mutation
+	res     map[string]bool
+	mkidx   map[string]bool // indexes created
 }
 
 type info struct {
@@ -222,7 +226,9 @@ type env struct {
 	actors map[int]*actor
 	log    []commitRec
 	raw    []hx.FaultKV
-	inf    info
+	// idxCreator: for every committed index, the commit that created it
+	idxCreator map[string]commitRec
+	inf        info
 	clock  int
 	trace  []string
 	// started: the drawn interleaving is running (the committed starting point is built)
@@ -236,6 +242,7 @@ const (
 	sigCreateUniqueKeepsDoc  = "C06/failed-op-partial-effect/create-unique-violation-keeps-document"
 	sigUpdateUniqueLosesKey  = "C06/failed-op-partial-effect/update-unique-violation-loses-index-entry"
 	sigDeleteMissingDocPanic = "C06/panic/collection.Delete-of-missing-document-with-index"
+	sigIndexMissesConcurrent = "C06/index-ddl-vs-concurrent-writer/index-misses-document"
 )
 
 // avoid reports whether the case asks to stay clear of the trigger of a listed finding
@@ -291,6 +298,16 @@ func (e *env) actor(a int) *actor {
 	return ac
 }
 
+func (e *env) openTxns() int {
+	n := 0
+	for a, ac := range e.actors {
+		if a != 0 && ac.begun && !ac.ended {
+			n++
+		}
+	}
+	return n
+}
+
 func (e *env) view(ac *actor) *mstate {
 	if ac.id == 0 {
 		return &e.S
@@ -328,7 +345,7 @@ func (e *env) col(ac *actor) (client.Collection, error) {
 // running a case
 
 func run(c Case) (*hx.Failure, info) {
-	e := &env{c: c, ctx: context.Background(), actors: map[int]*actor{}, inf: info{labels: map[string]bool{}}}
+	e := &env{c: c, ctx: context.Background(), actors: map[int]*actor{}, idxCreator: map[string]commitRec{}, inf: info{labels: map[string]bool{}}}
 	if len(c.Docs) == 0 {
 		return nil, e.inf
 	}
@@ -482,7 +499,7 @@ func (e *env) doStep(st Step) *hx.Failure {
 		if st.A == 0 || ac.begun {
 			return nil
 		}
-		if f := e.begin(ac, st.U); f != nil {
+		if f := e.begin(ac, st.U, st.C); f != nil {
 			return f
 		}
 	case "commit":
@@ -516,7 +533,7 @@ func (e *env) doStep(st Step) *hx.Failure {
 				return nil
 			}
 			if !ac.begun {
-				if f := e.begin(ac, false); f != nil {
+				if f := e.begin(ac, false, false); f != nil {
 					return f
 				}
 			}
@@ -538,7 +555,7 @@ func (e *env) doStep(st Step) *hx.Failure {
 				return nil
 			}
 			if !ac.begun {
-				if f := e.begin(ac, false); f != nil {
+				if f := e.begin(ac, false, false); f != nil {
 					return f
 				}
 			}
@@ -573,7 +590,14 @@ func (e *env) doStep(st Step) *hx.Failure {
 		}
 	}
 
-	// 3. a reader outside every transaction sees exactly the committed state
+	// 3. a reader outside every transaction sees exactly the committed state (a read inside a
+	// transaction is followed by the raw-store and event checks only)
+	switch st.K {
+	case "get", "list", "count", "indexes":
+		if st.A != 0 {
+			return nil
+		}
+	}
 	return e.outside(st, phase)
 }
 
@@ -620,8 +644,16 @@ func matchEvents(want []expEvent, got []string) bool {
 	return false
 }
 
-func (e *env) begin(ac *actor, readOnly bool) *hx.Failure {
-	txn, err := e.n.DB.NewTxn(e.ctx, readOnly)
+func (e *env) begin(ac *actor, readOnly, concurrent bool) *hx.Failure {
+	var txn client.Txn
+	var err error
+	if concurrent {
+		txn, err = e.n.DB.NewConcurrentTxn(e.ctx, readOnly)
+		e.label("begin:NewConcurrentTxn")
+	} else {
+		txn, err = e.n.DB.NewTxn(e.ctx, readOnly)
+		e.label("begin:NewTxn")
+	}
 	if err != nil {
 		return e.failf("C06/begin-error", "NewTxn(readOnly=%v): %v", readOnly, err)
 	}
@@ -634,6 +666,7 @@ func (e *env) begin(ac *actor, readOnly bool) *hx.Failure {
 	ac.wrote = map[int]bool{}
 	ac.touched = map[int]bool{}
 	ac.res = map[string]bool{}
+	ac.mkidx = map[string]bool{}
 	e.note("T%d begin readOnly=%v", ac.id, readOnly)
 	if readOnly {
 		e.label("readonly-txn")
@@ -706,12 +739,21 @@ func (e *env) commit(ac *actor) (bool, *hx.Failure) {
 		if ac.ddl {
 			e.S.idx = ac.view.clone().idx
 		}
-		r := commitRec{clock: e.clock, actor: ac.id, docs: map[int]bool{}, res: map[string]bool{}}
+		r := commitRec{begin: ac.beginClock, clock: e.clock, actor: ac.id, docs: map[int]bool{}, touched: map[int]bool{}, res: map[string]bool{}, mkidx: map[string]bool{}}
 		for d := range ac.wrote {
 			r.docs[d] = true
 		}
+		for d := range ac.touched {
+			r.touched[d] = true
+		}
 		for x := range ac.res {
 			r.res[x] = true
+		}
+		for f := range ac.mkidx {
+			if _, ok := e.S.idx[f]; ok {
+				r.mkidx[f] = true
+				e.idxCreator[f] = r
+			}
 		}
 		e.log = append(e.log, r)
 	}
@@ -748,6 +790,11 @@ func (e *env) mutation(ac *actor, st Step) (bool, *hx.Failure) {
 			return false, nil
 		}
 	}
+	if st.K == "mkindex" && e.started && e.avoid(sigIndexMissesConcurrent) && (ac.id != 0 || e.openTxns() > 0) {
+		e.label("avoided:index-creation-concurrent-with-transactions")
+		e.note("%s mkindex %s skipped (switch: no index creation while a transaction is open)", actorName(ac.id), st.F)
+		return false, nil
+	}
 	if st.K == "delete" && st.R == 2 && v.docs[st.D].st != live && len(v.idx) > 0 && e.avoid(sigDeleteMissingDocPanic) {
 		e.label("avoided:collection.Delete-of-missing-doc-with-index")
 		st.R = 0
@@ -779,12 +826,19 @@ func (e *env) mutation(ac *actor, st Step) (bool, *hx.Failure) {
 	if exp.apply {
 		applyTo(v, st, e.c.Docs)
 		if st.A == 0 {
-			r := commitRec{clock: e.clock, actor: 0, docs: map[int]bool{}, res: map[string]bool{}}
-			if !strings.HasSuffix(st.K, "index") && exp.definite {
-				r.docs[st.D] = true
+			r := commitRec{begin: e.clock, clock: e.clock, actor: 0, docs: map[int]bool{}, touched: map[int]bool{}, res: map[string]bool{}, mkidx: map[string]bool{}}
+			if !strings.HasSuffix(st.K, "index") {
+				r.touched[st.D] = true
+				if exp.definite {
+					r.docs[st.D] = true
+				}
 			}
 			for _, x := range exp.res {
 				r.res[x] = true
+			}
+			if st.K == "mkindex" {
+				r.mkidx[st.F] = true
+				e.idxCreator[st.F] = r
 			}
 			e.log = append(e.log, r)
 			if strings.HasSuffix(st.K, "index") && e.started {
@@ -793,6 +847,11 @@ func (e *env) mutation(ac *actor, st Step) (bool, *hx.Failure) {
 		} else {
 			if strings.HasSuffix(st.K, "index") {
 				ac.ddl = true
+				if st.K == "mkindex" {
+					ac.mkidx[st.F] = true
+				} else {
+					delete(ac.mkidx, st.F)
+				}
 				e.label("ddl-in-txn")
 			} else {
 				ac.touched[st.D] = true
@@ -1376,8 +1435,14 @@ func (e *env) outside(st Step, phase string) *hx.Failure {
 		what := "scan"
 		if sel == "byAge" || sel == "byTag" {
 			what = "filter-" + sel
-			if _, ok := e.S.idx[strings.ToLower(sel[2:])]; ok {
+			field := strings.ToLower(sel[2:])
+			if _, ok := e.S.idx[field]; ok {
 				what += "-indexed"
+				if why := e.explainedByConcurrentIndexCreation(field, got, want); why != "" {
+					return e.failf(sigIndexMissesConcurrent,
+						"after step %+v the filter on %s, served by index ix_%s, returns\n%s\nwant (committed state %s)\n%s\n%s",
+						st, field, field, strings.Join(got, "\n"), e.render(&e.S), strings.Join(want, "\n"), why)
+				}
 			}
 		} else if sel == "all" {
 			what = "scan-showDeleted"
@@ -1394,6 +1459,53 @@ func (e *env) outside(st Step, phase string) *hx.Failure {
 		return e.failf("C06/outside-state-differs/indexes/at-"+phase, "after step %+v the committed indexes are [%s], want [%s]", st, got, want)
 	}
 	return nil
+}
+
+// explainedByConcurrentIndexCreation is the diagnoser of sigIndexMissesConcurrent: rows are only
+// missing (none extra, none different), and every missing document was written by a writer whose
+// lifetime overlapped the lifetime of the writer that created the index (so one of the two could
+// not see the other: the index was built from a snapshot without the document, or the document was
+// written under a snapshot without the index), both committed.
+func (e *env) explainedByConcurrentIndexCreation(field string, got, want []string) string {
+	x, ok := e.idxCreator[field]
+	if !ok {
+		return ""
+	}
+	gotSet := map[string]bool{}
+	for _, g := range got {
+		gotSet[g] = true
+	}
+	wantSet := map[string]bool{}
+	for _, w := range want {
+		wantSet[w] = true
+	}
+	for g := range gotSet {
+		if !wantSet[g] {
+			return ""
+		}
+	}
+	why := []string{}
+	for k, d := range e.S.docs {
+		if d.st != live || gotSet[hx.Canon(e.row(k, d, false))] {
+			continue
+		}
+		found := false
+		for _, y := range e.log {
+			if y.clock == x.clock && y.actor == x.actor {
+				continue
+			}
+			if y.touched[k] && y.begin < x.clock && x.begin < y.clock {
+				found = true
+				why = append(why, fmt.Sprintf("d%d is missing: written by %s (snapshot [%d], committed [%d]) concurrently with the creation of ix_%s by %s (snapshot [%d], committed [%d])",
+					k, actorName(y.actor), y.begin, y.clock, field, actorName(x.actor), x.begin, x.clock))
+				break
+			}
+		}
+		if !found {
+			return ""
+		}
+	}
+	return strings.Join(why, "; ")
 }
 
 // finishLabels derives the case-level classification from the model's bookkeeping.
